@@ -45,6 +45,8 @@ EntryOK(S, e) ==
          e.rows = S.nodes /\ e.cols = S.nodes /\ RatMat(e, LAMBDA a, b : MultiLap(S, e.ds, e.ws, e.resc, a, b))
     [] e.kind = "normcore" ->
          e.rows = S.nodes /\ e.cols = S.nodes /\ RatMat(e, LAMBDA a, b : NormCore(S, a, b))
+    [] e.kind = "normcorew" ->
+         e.rows = S.nodes /\ e.cols = S.nodes /\ RatMat(e, LAMBDA a, b : NormCoreW(S, a, b))
     [] e.kind = "tensor" ->
          LET sets == {S.e2n[x] : x \in Range(cols)} IN
          /\ \A k \in DOMAIN e.tuples : NoDup(e.tuples[k]) /\ Range(e.tuples[k]) \in sets
